@@ -9,6 +9,8 @@
 (*       C20_StepSatisfiesEquations  the values of a period do not satisfy the equations     *)
 (*       C20_AgreesWithInProcess     the series differ from the in-process solver's          *)
 (*       C20_HeaderTimeFirst         the table header                                        *)
+(*   all of them on every module the generator object writes (a Regenerate event is main()   *)
+(*   called again on the same object; its module is imported, run and judged the same way).   *)
 (*   drift:<clause>     the code did something the spec action does not predict              *)
 (* Numeric predicates (resid_ok, agree_ok) are computed by the driver with exact rationals;  *)
 (* everything about names, orders, lengths and WHEN a predicate must hold is decided here.   *)
@@ -93,7 +95,7 @@ JudgeStep(e) ==
 JudgeCsv(e) ==
     IF phase # "done" THEN Prop("C20_StepAppendsAll")       \* stopped before MaxTime (kept only if nothing worse came first)
     ELSE IF ~e.ok THEN Prop("C20_HeaderTimeFirst")
-    ELSE IF ~HeaderOk(e.header, NonLaggedOfBlock(parser)) THEN Prop("C20_HeaderTimeFirst")
+    ELSE IF ~HeaderOk(e.header, NonLaggedOfBlock(ParseOp(blk))) THEN Prop("C20_HeaderTimeFirst")
     ELSE IF e.header # file.header THEN Drift("header_order")
     ELSE IF mod.status = "ok" /\ e.rows # mod.STEP + 1 THEN Drift("table_rows")
     ELSE Ok
@@ -103,6 +105,7 @@ PhaseFor(ev) == CASE ev = "ParseBlock"        -> {"init"}
                   [] ev = "GenerateFile"      -> {"equations"}
                   [] ev = "Import"            -> {"file"}
                   [] ev = "RunStep"           -> {"imported", "running"}
+                  [] ev = "Regenerate"        -> IF ngen < MaxGenerations THEN {"done"} ELSE {}
                   [] OTHER                    -> {}
 
 TraceInit == Init /\ l = 1 /\ verdict = Ok
@@ -126,17 +129,20 @@ TraceNext ==
        \/ /\ e.ev = "RunStep" /\ phase \in PhaseFor(e.ev)
           /\ RunStep(e.resid_ok)
           /\ verdict' = Worse(verdict, JudgeStep(e))
+       \/ /\ e.ev = "Regenerate" /\ phase \in PhaseFor(e.ev)
+          /\ Regenerate
+          /\ verdict' = verdict
        \/ /\ e.ev = "Csv"
           /\ UNCHANGED vars
           /\ verdict' = Worse(verdict, JudgeCsv(e))
-       \/ /\ e.ev \in {"ParseBlock", "GenerateEquations", "GenerateFile", "Import", "RunStep"}
+       \/ /\ e.ev \in {"ParseBlock", "GenerateEquations", "GenerateFile", "Import", "RunStep", "Regenerate"}
           /\ phase \notin PhaseFor(e.ev)             \* an event the spec has no action for in this phase
           /\ UNCHANGED vars
           /\ verdict' = Worse(verdict, IF e.ev = "RunStep" /\ ~e.ok THEN Prop("C20_ImportAndRun")
                                        ELSE Drift("event_order"))
        \/ /\ e.ev = "End"
           /\ PrintT(<< "VERDICT", e.tid, verdict.kind \o ":" \o verdict.clause >>)
-          /\ phase' = "init" /\ blk' = NoBlock /\ parser' = NoParser /\ gen' = NoGen
+          /\ phase' = "init" /\ ngen' = 0 /\ blk' = NoBlock /\ parser' = NoParser /\ gen' = NoGen
           /\ file' = NoFile /\ mod' = NoModule
           /\ verdict' = Ok
 
